@@ -302,7 +302,7 @@ func (s *Sys) checkAccepted(name string, pre refpool.Pool, acc []*mempool.TxDesc
 			s.violf("desc/fee: %s: descriptor of %s records fee %d, the transaction pays %d", name, u.Ref.Name, d.Fee, u.Ref.Fee)
 		}
 		for _, p := range cur.ReplacementProblems(u.Ref, MinRelayPerKB, s.Pol.RejectReplacement) {
-			s.violf("I7/%s: %s accepted %s over pool %v: %s", strings.SplitN(p, " ", 2)[0], name, u.Ref.Name, cur.Names(), p)
+			s.violf("I7/%s: %s accepted %s over pool %v: %s", strings.TrimSuffix(strings.SplitN(p, " ", 2)[0], ":"), name, u.Ref.Name, cur.Names(), p)
 		}
 		var ev refpool.Pool
 		cur, ev = cur.Accept(u.Ref)
